@@ -59,6 +59,12 @@ where
                         stored_to - from,
                     )
                 };
+                #[cfg(feature = "verif")]
+                crate::verif::access(
+                    src.as_ptr() as *const u8,
+                    size_of_val(src),
+                    "ReadWriteRawVec::read_into_at(bulk)",
+                );
                 buf.extend_from_slice(src);
             } else {
                 self.fold_source(from, stored_to, (), |(), v| buf.push(v));
